@@ -287,6 +287,9 @@ func (m *Machine) intercept(fn *ssa.Function) (func([]Value) Value, bool) {
 					m.Log = append(m.Log, fmt.Sprintf("assert:%s=%v", id, b.IsTrue()))
 					return nil
 				}
+				if m.Prop != "" && !strings.HasPrefix(id, m.Prop+".") {
+					return nil // an obligation of another property: neither checked nor assumed in this run
+				}
 				if b.IsTrue() {
 					m.Sh.Mu.Lock()
 					m.Sh.Asserts[id]++
